@@ -1,5 +1,12 @@
-"""Non-MIR fact extraction (E2 syn, E3 ts). Filled in as engines are added."""
+"""Non-MIR fact extraction (E2 syn, E3 ts)."""
+import os
 
 
 def extract_extra(repo, outdir, log):
-    return
+    import facts as F
+    tool = F.tool_path("synfacts")
+    os.makedirs(os.path.join(outdir, "syn"), exist_ok=True)
+    out = os.path.join(outdir, "syn", "syn.json")
+    p = F.run([tool, repo, out], log=log)
+    if p.returncode != 0 or not os.path.exists(out):
+        raise F.CheckError("synfacts failed: " + p.stdout[-2000:])
